@@ -69,9 +69,83 @@ type condInfo struct {
 	neg  bool   // the condition is the negation of the classified test
 }
 
+// errPredicates: local closures and one-line functions of the module that test an error
+// (gone := func(err error) bool { return errors.Is(err, fs_db.ErrNotFound) }): object -> (parameter, returned expression).
+// Filled once per load by registerErrPredicates.
+var errPredicates = map[types.Object]errPredicate{}
+
+type errPredicate struct {
+	param types.Object
+	ret   ast.Expr
+}
+
+func registerErrPredicates(p *Prog) {
+	errPredicates = map[types.Object]errPredicate{}
+	add := func(info *types.Info, o types.Object, ft *ast.FuncType, body *ast.BlockStmt) {
+		if o == nil || body == nil || len(body.List) != 1 || ft.Params == nil || ft.Results == nil || len(ft.Results.List) != 1 {
+			return
+		}
+		rs, ok := body.List[0].(*ast.ReturnStmt)
+		if !ok || len(rs.Results) != 1 {
+			return
+		}
+		if tv, ok := info.Types[rs.Results[0]]; !ok || tv.Type == nil {
+			return
+		} else if bt, isB := tv.Type.Underlying().(*types.Basic); !isB || bt.Info()&types.IsBoolean == 0 {
+			return
+		}
+		var params []types.Object
+		for _, fld := range ft.Params.List {
+			for _, nm := range fld.Names {
+				params = append(params, info.Defs[nm])
+			}
+		}
+		if len(params) != 1 || params[0] == nil || !isErrorType(params[0].Type()) {
+			return
+		}
+		errPredicates[o] = errPredicate{params[0], rs.Results[0]}
+	}
+	for _, pkg := range p.PkgList {
+		info := pkg.TypesInfo
+		for _, file := range pkg.Syntax {
+			ast.Inspect(file, func(x ast.Node) bool {
+				switch d := x.(type) {
+				case *ast.FuncDecl:
+					if d.Recv == nil && d.Body != nil {
+						add(info, info.Defs[d.Name], d.Type, d.Body)
+					}
+				case *ast.AssignStmt:
+					if d.Tok == token.DEFINE && len(d.Lhs) == 1 && len(d.Rhs) == 1 {
+						if lit, ok := d.Rhs[0].(*ast.FuncLit); ok {
+							if id, ok := d.Lhs[0].(*ast.Ident); ok {
+								add(info, info.Defs[id], lit.Type, lit.Body)
+							}
+						}
+					}
+				}
+				return true
+			})
+		}
+	}
+}
+
 // classifyCond recognises error tests on a variable.
 func classifyCond(info *types.Info, e ast.Expr) condInfo {
 	e = ast.Unparen(e)
+	// a named test: gone(err)
+	if c, ok := e.(*ast.CallExpr); ok && len(c.Args) == 1 {
+		if id, isId := ast.Unparen(c.Fun).(*ast.Ident); isId {
+			if pr, known := errPredicates[info.Uses[id]]; known {
+				ci := classifyCond(info, pr.ret)
+				if ci.obj == pr.param {
+					if o := errVarOf(info, c.Args[0]); o != nil {
+						ci.obj = o
+						return ci
+					}
+				}
+			}
+		}
+	}
 	if u, ok := e.(*ast.UnaryExpr); ok && u.Op == token.NOT {
 		ci := classifyCond(info, u.X)
 		ci.neg = !ci.neg
